@@ -55,6 +55,8 @@ VALID = [
     # valid and loads like any other - e.g. an experiment switched off for everybody but one plan)
     'def exp { splitters: uid if plan == "pro" { return "A" weighted 1, "B" weighted 1 } else { return "off" weighted 0, "off2" weighted 0.0 } }',
     'def off { splitters: uid return "off" weighted 0 }',
+    # a segment table: one top-level chain of 640 links (loads like any other text, and leaves the interpreter as it found it)
+    'def table { splitters: uid ' + " else ".join('if plan == "p%d" { return "s%d" weighted 1, "t%d" weighted 1 }' % (i, i, i) for i in range(640)) + ' else { return "A" weighted 1, "B" weighted 1 } }',
     # ==-equal group values of different type / sign
     'def num { splitters: uid return 1 weighted 1, 2 weighted 1 }',
     'def num { splitters: uid return 1.0 weighted 1, 2.0 weighted 1 }',
@@ -201,6 +203,18 @@ def histories(draw):
 
 
 def judge(case):
+    from .. import common
+
+    state0 = common.global_state()
+    res = _judge(case)
+    changed = common.state_diff(state0, common.global_state())
+    if changed and not res["viol"]:
+        res["viol"] = ["interpreter-wide state was changed by the history %r: %s" % (case["ops"][:8], "; ".join(changed))]
+        common.restore_state(state0)
+    return res
+
+
+def _judge(case):
     E = sut.evaluator_mod().ExperimentEvaluator
     evs, model = [], []
     viol = []
